@@ -271,7 +271,10 @@ class Exporter:
             spine_count = len(last_row)
             merge_tokens_count = sum(1 for column in last_row if column == '*^')
             join_tokens_count = sum(1 for column in last_row if column == '*v')
-            next_row_spine_count = spine_count + merge_tokens_count - join_tokens_count
+            # every group of adjacent joins leaves one spine
+            join_groups_count = sum(1 for i, column in enumerate(last_row)
+                                    if column == '*v' and (i == 0 or last_row[i - 1] != '*v'))
+            next_row_spine_count = spine_count + merge_tokens_count - (join_tokens_count - join_groups_count)
 
             row = []
             for i in range(next_row_spine_count):
